@@ -38,6 +38,7 @@ type script struct {
 	style  string // plain together zero dribble
 	errAt  int    // >=0: return errInjected once pos reaches errAt
 	zeroed bool
+	next   []byte // content served after the next rewind (nil: unchanged)
 }
 
 var errInjected = errors.New("injected stream error")
@@ -77,6 +78,10 @@ func (s *script) Seek(off int64, whence int) (int64, error) {
 		return int64(s.pos), fmt.Errorf("unsupported")
 	}
 	s.pos = 0
+	if s.next != nil {
+		// the source changed between the passes (file overwritten, request re-issued and answered differently)
+		s.data, s.next = s.next, nil
+	}
 	return 0, nil
 }
 
@@ -209,7 +214,17 @@ func level1() {
 					if sizeKnown {
 						d.Size = int64(L)
 					}
-					for _, sv := range corruptions(c, full, lr) {
+					all := corruptions(c, full, lr)
+					var changed []served
+					for _, sv2 := range all {
+						if sv2.kind != "correct" {
+							changed = append(changed, sv2)
+						}
+					}
+					if !full && len(changed) > 8 {
+						changed = changed[:8]
+					}
+					for _, sv := range all {
 						for _, st := range styles {
 							for bi, bs := range bufSeqs {
 								if !full && (bi+len(st))%3 != 0 {
@@ -235,6 +250,22 @@ func level1() {
 									verdict("reader-after-rewind", sv.kind, d, c, got2, err2, w)
 								} else if bi == 0 {
 									run.Count("rewind_refused", 1)
+								}
+								// a clean first pass must not vouch for the second: rewind onto a source that changed meanwhile
+								if sv.kind == "correct" && (st == "plain" || st == "together") && bi%3 == 0 {
+									for _, sv2 := range changed {
+										src := &script{data: c, style: st, errAt: -1, next: sv2.data}
+										br := blob.NewReader(blob.WithReader(src), blob.WithDesc(d))
+										if _, err1 := drain(br, bs); err1 != nil {
+											continue
+										}
+										if _, serr := br.Seek(0, io.SeekStart); serr != nil {
+											continue
+										}
+										got2, err2 := drain(br, bs)
+										run.Count("rewinds_onto_changed_source", 1)
+										verdict("reader-rewind-onto-changed-source", sv2.kind, d, c, got2, err2, w)
+									}
 								}
 							}
 						}
